@@ -114,6 +114,14 @@ def rows(ctx: Ctx, params):
             except Exception as ex:  # noqa: BLE001
                 row["r"] = f"EXC:{type(ex).__name__}:{ex}"[:120]
             out.append(row)
+            if fam == "opt" and a % TR and b % TR:
+                row2 = {"op": "miller", "m": fam, "a": a, "b": b, "x": []}
+                try:
+                    e = pm.pairing(c.multiply(c.G2, b), c.multiply(c.G1, a), final_exponentiate=False)
+                    row2["r"] = [int(v) if isinstance(v, int) else int(v.n) for v in e.coeffs]
+                except Exception as ex:  # noqa: BLE001
+                    row2["r"] = f"EXC:{type(ex).__name__}:{ex}"[:120]
+                out.append(row2)
         sup = [[k] for k in range(12)] + [[0, 6], [6], [0, 2, 4, 6, 8, 10], [0, 3, 6, 9], [0, 4, 8], [1, 7], [0, 6, 11]]
         shaped = []
         for sp in sup:
